@@ -350,3 +350,204 @@ pub fn record(args: &Args) {
     sum.set("events", json!(nev));
     sum.write(args.opt("summary").unwrap_or("/dev/stdout"));
 }
+
+/// spec -> impl: environment schedules generated by TLC from Daser.tla (spec/Gen_Daser.tla) are performed on
+/// the real Daser; the worker takes its own steps; everything observable is logged exactly as in `record`.
+pub fn replay(args: &Args) {
+    let cases = h_common::read_cases(args.pos(2));
+    let n = args.opt_u64("n", 8);
+    let lim = args.opt_u64("lim", 2) as usize;
+    let extra = args.opt_u64("extra", 1) as usize;
+    let k = args.opt_u64("wsamp", 5);
+    let mut tw = TraceWriter::create(args.opt("out").expect("--out"));
+    let mut sum = Summary::new("daser-replay");
+    h_common::QUIET_ALL.store(true, std::sync::atomic::Ordering::Relaxed);
+    let rt = tokio::runtime::Builder::new_current_thread().enable_all().start_paused(true).build().unwrap();
+    rt.block_on(async {
+        for (run, case) in cases.iter().enumerate() {
+            let ops = case["ops"].as_array().unwrap();
+            // square widths are fixed by the schedule's insert steps
+            let mut wd = vec![2usize; n as usize + 1];
+            for o in ops {
+                if o["a"] == "insert" {
+                    wd[o["h"].as_u64().unwrap() as usize] = o["v"].as_u64().unwrap() as usize;
+                }
+            }
+            let now = Time::now();
+            let base = (now - Duration::from_secs(n * DELTA)).unwrap();
+            let mut g = ExtendedHeaderGenerator::new();
+            g.set_time(base, Duration::from_secs(DELTA));
+            let mut chain: Vec<ExtendedHeader> = vec![];
+            let mut edss: Vec<ExtendedDataSquare> = vec![];
+            for h in 1..=n {
+                let eds = generate_dummy_eds(wd[h as usize], AppVersion::V2);
+                let dah = DataAvailabilityHeader::from_eds(&eds);
+                chain.push(g.next_with_dah(dah));
+                edss.push(eds);
+            }
+            let (p2p, handle) = w::mocked_p2p();
+            let shared = Arc::new(Mutex::new(Shared { handle, pending: vec![], graveyard: vec![], log: vec![], sub: None, n_started: 0, n_timeout: 0, fatal: false }));
+            let sh2 = shared.clone();
+            let hook: crate::recstore::Hook = Arc::new(move |c: Call<'_>| {
+                let mut sh = sh2.lock().unwrap();
+                drain_events(&mut sh);
+                drain_cmds(&mut sh);
+                match c {
+                    Call::Meta(h, cids, ok) => {
+                        let shares: Vec<Value> = cids.iter().map(|c| match sid(c) {
+                            Some((hh, r, cc)) if hh == h => json!([r, cc]),
+                            _ => json!([65535, 65535]),
+                        }).collect();
+                        sh.log.push(json!({"name": "meta", "h": h, "shares": shares, "ok": ok as u8}));
+                    }
+                    Call::Mark(h, ok) => sh.log.push(json!({"name": "mark", "h": h, "ok": ok as u8})),
+                    _ => {}
+                }
+            });
+            let store = Arc::new(RecStore { inner: InMemoryStore::new(), hook });
+            let events = Events::new();
+            shared.lock().unwrap().sub = Some(events.subscribe());
+            let wsamp = Duration::from_secs((k - 1) * DELTA + DELTA / 2);
+            tw.emit(json!({"name": "reset", "run": run, "now": n}));
+            let daser = VDaser::start(&p2p, store.clone(), &events, wsamp, lim, extra).unwrap();
+            let mut connected = false;
+            let mut promised: Vec<u64> = vec![];
+            let (mut n_want, mut n_disc, mut n_done, mut n_skipped) = (0u64, 0u64, 0u64, 0u64);
+            let flush = |tw: &mut TraceWriter, shared: &Arc<Mutex<Shared>>| -> usize {
+                let mut sh = shared.lock().unwrap();
+                drain_events(&mut sh);
+                drain_cmds(&mut sh);
+                let n = sh.log.len();
+                for v in sh.log.drain(..) {
+                    tw.emit(v);
+                }
+                n
+            };
+            'ops: for o in ops {
+                loop {
+                    settle().await;
+                    if flush(&mut tw, &shared) == 0 {
+                        break;
+                    }
+                }
+                if shared.lock().unwrap().fatal {
+                    break;
+                }
+                let h = o["h"].as_u64().unwrap_or(0);
+                let v = o["v"].as_u64().unwrap_or(0);
+                let stored = store.inner.get_stored_header_ranges().await.unwrap();
+                n_done += 1;
+                match o["a"].as_str().unwrap() {
+                    "insert" if !stored.contains(h) => {
+                        if store.inner.insert(chain[(h - 1) as usize].clone()).await.is_ok() {
+                            tw.emit(json!({"name": "insert", "h": h, "w": edss[(h - 1) as usize].square_width()}));
+                        }
+                    }
+                    "remove" => {
+                        // the pruner removes only what the real Daser granted, or what is sampled
+                        let sampled = store.inner.get_sampled_ranges().await.unwrap();
+                        if stored.contains(h) && (promised.contains(&h) || sampled.contains(h)) {
+                            store.inner.remove_height(h).await.unwrap();
+                            tw.emit(json!({"name": "remove", "h": h}));
+                        } else {
+                            n_skipped += 1;
+                        }
+                    }
+                    "connect" if !connected => {
+                        shared.lock().unwrap().handle.announce_peer_connected();
+                        connected = true;
+                        tw.emit(json!({"name": "connect"}));
+                    }
+                    "disconnect" if connected => {
+                        shared.lock().unwrap().handle.announce_all_peers_disconnected();
+                        bury(&mut shared.lock().unwrap());
+                        connected = false;
+                        n_disc += 1;
+                        tw.emit(json!({"name": "disconnect"}));
+                    }
+                    "want" if stored.contains(h) => {
+                        flush(&mut tw, &shared);
+                        let granted = daser.want_to_prune(h).await.unwrap_or(false);
+                        n_want += 1;
+                        flush(&mut tw, &shared);
+                        tw.emit(json!({"name": "want", "h": h, "granted": granted as u8}));
+                        if granted {
+                            promised.push(h);
+                        }
+                    }
+                    "hp" => {
+                        daser.update_highest_prunable_block(v).await.unwrap();
+                        tw.emit(json!({"name": "hp", "v": v}));
+                    }
+                    "np" => {
+                        daser.update_number_of_prunable_blocks(v).await.unwrap();
+                        tw.emit(json!({"name": "np", "v": v}));
+                    }
+                    a @ ("ans" | "ansall") => {
+                        // answer one / every outstanding request of block h (or of the newest block in progress)
+                        let mut first = true;
+                        loop {
+                            let next = {
+                                let mut sh = shared.lock().unwrap();
+                                let target = if sh.pending.iter().any(|x| x.0 == h) { Some(h) } else { sh.pending.iter().map(|x| x.0).max() };
+                                target.and_then(|t| sh.pending.iter().position(|x| x.0 == t).map(|i| sh.pending.swap_remove(i)))
+                            };
+                            let Some((hh, r, c, cid, tx)) = next else {
+                                if first {
+                                    n_skipped += 1;
+                                }
+                                break;
+                            };
+                            first = false;
+                            tw.emit(json!({"name": "ans", "h": hh, "r": r, "c": c}));
+                            let _ = tx.send(Ok(block_bytes(&edss[(hh - 1) as usize], &cid, r, c)));
+                            if a == "ans" {
+                                break;
+                            }
+                            // the command channel holds 16 entries: let the rest of the block's requests arrive
+                            settle().await;
+                            flush(&mut tw, &shared);
+                            if shared.lock().unwrap().fatal {
+                                break 'ops;
+                            }
+                            if !shared.lock().unwrap().pending.iter().any(|x| x.0 == hh) {
+                                break;
+                            }
+                        }
+                    }
+                    "timeout" => {
+                        if shared.lock().unwrap().pending.is_empty() {
+                            n_skipped += 1;
+                        } else {
+                            bury(&mut shared.lock().unwrap());
+                            let mut t = 0;
+                            while t < n * DELTA + 1000 {
+                                tokio::time::sleep(Duration::from_secs(5)).await;
+                                t += 5;
+                                flush(&mut tw, &shared);
+                                bury(&mut shared.lock().unwrap());
+                            }
+                        }
+                    }
+                    _ => n_skipped += 1,
+                }
+            }
+            for _ in 0..3 {
+                settle().await;
+                flush(&mut tw, &shared);
+            }
+            daser.stop();
+            daser.join().await;
+            let (n_started, n_timeout) = { let sh = shared.lock().unwrap(); (sh.n_started, sh.n_timeout) };
+            let nontrivial = n_started >= 1;
+            for p in ["C33", "C34"] {
+                sum.case(p, if nontrivial { Some(format!("{}", serde_json::to_string(&case["ops"]).unwrap())) } else { None },
+                         || json!({"dir": "spec->impl", "ops": n_done, "skipped": n_skipped, "started": n_started,
+                                   "timed_out_blocks": n_timeout, "want_to_prune": n_want, "disconnects": n_disc}));
+            }
+        }
+    });
+    let nev = tw.finish();
+    sum.set("events", json!(nev));
+    sum.write(args.opt("summary").unwrap_or("/dev/stdout"));
+}
